@@ -124,6 +124,7 @@ def run(ctx):
                 raise
         pos += nops
     _default_grid_cases(ctx, meta, st_go)
+    run_large(ctx, meta)
 
 
 def _check_model(ctx, cls_name, pr, gam, toks, grids, outs, st, st_or, st_g, st_go):
@@ -299,6 +300,45 @@ def _default_grid_cases(ctx, meta, st_go):
                 ctx.fail(st_go, dict(kind='grid', why='default'), dict(cls=cls_name, tokens=toks, term=ti), observed='partial_dependence(term) without X is not evaluated on generate_X_grid(term)',
                          expected='100-point default grid', oracle='public API identity')
             break
+
+
+def run_large(ctx, meta):
+    """large queries: every row of predict_mu / partial_dependence on a big X equals the same row queried alone
+    (catches block-wise evaluation that drops or misplaces a partial block); sizes seeded by integer literals of the source"""
+    import pygam.pygam as PG
+    from harness.props.c16 import harvest_int_literals
+    st = 'decomp.large'
+    ctx.stream(st, 'large query matrices: rows of predict_mu / partial_dependence equal the rows queried alone and the additive decomposition (first, last, random rows)')
+    sizes = sorted(set([25001] + [L + 2345 for L in harvest_int_literals([PG], lo=1000, hi=200000)]))[:4]
+    ctx.count('large query sizes', str(sizes))
+    rng = np.random.default_rng(ctx.seed + 7)
+    done = 0
+    for (cls_name, pr, gam, toks, grids) in meta:
+        if done >= 2 or int(gam.terms.n_coefs) > 40:
+            continue
+        done += 1
+        for n in sizes:
+            X = pr.Xq[rng.integers(0, pr.Xq.shape[0], n)]
+            sig = dict(cls=cls_name, tokens=toks, n=n)
+            ctx.case(st, sig, nontrivial=True, sample=dict(cls=cls_name, n=n))
+            rows = sorted(set([0, 1, 2, n - 3, n - 2, n - 1] + [int(v) for v in rng.integers(0, n, 40)] + [n - 1 - int(v) for v in rng.integers(0, min(n, 3000), 20)]))
+            mu_big = np.asarray(gam.predict_mu(X))[rows]
+            mu_small = np.asarray(gam.predict_mu(X[rows]))
+            bad = None
+            if np.abs(mu_big - mu_small).max() > 1e-12 * (1 + np.abs(mu_small).max()):
+                bad = 'predict_mu rows of a large X differ from the rows queried alone (max %.3g)' % np.abs(mu_big - mu_small).max()
+            else:
+                for ti, t in enumerate(gam.terms):
+                    if t.isintercept:
+                        continue
+                    pb = np.asarray(gam.partial_dependence(ti, X=X))[rows]
+                    ps = np.asarray(gam.partial_dependence(ti, X=X[rows]))
+                    if np.abs(pb - ps).max() > 1e-12 * (1 + np.abs(ps).max()):
+                        bad = 'partial_dependence(term %d) rows of a large X differ from the rows queried alone (max %.3g)' % (ti, np.abs(pb - ps).max())
+                        break
+            if bad:
+                ctx.fail(st, dict(kind='large-rows', cls=cls_name), dict(cls=cls_name, tokens=toks, n=n), observed=bad,
+                         expected='row-wise evaluation independent of the batch', oracle='same rows queried alone')
 
 
 def termgen_flatten(v):
